@@ -63,9 +63,13 @@ def judge(e1, e2, scale, order, refine=2.0, lose=1):
         return "held", "floor"
     ratio = e1 / e2
     need = max(refine ** (order - lose - 1), refine if lose == 1 else 1.5)
-    if ratio >= need and e2 <= 0.05 * scale:
+    if ratio >= need and e2 <= 0.25 * scale:
         return "held", f"ratio {ratio:.1f}>={need:.0f}"
-    return "violated", f"ratio {ratio:.2f} < {need:.0f} (e1={e1:.2e} e2={e2:.2e} scale={scale:.2e})"
+    # "marginal": clearly converging, only not yet at the asymptotic rate (or
+    # still large) on this pair of grids; the caller may retry on a finer pair
+    marginal = ratio >= max(1.8, need / 4.0)
+    return ("violated", f"ratio {ratio:.2f} < {need:.0f} (e1={e1:.2e} e2={e2:.2e} "
+                        f"scale={scale:.2e}){' marginal' if marginal else ''}")
 
 
 def compare_pair(code1, ex1, code2, ex2, n1, margin, order, scale_hint=0.0,
